@@ -491,7 +491,7 @@ def check_index(ck: Check, bad: list, r):
                 nbad += 1
         return nbad
 
-    plans = [(2, 7, 7), (0, 63, 63), (0, 70, 63)] if ck.quick else [(3, 9, 9), (1, 63, 63), (0, 64, 63), (0, 70, 63), (6, 3, 3)]
+    plans = [(2, 7, 7), (0, 70, 63)] if ck.quick else [(3, 9, 9), (1, 63, 63), (0, 64, 63), (0, 70, 63), (6, 3, 3)]
     total = 0
     t0 = time.time()
     for D, kreq, keff in plans:
@@ -692,8 +692,10 @@ def main(tier=None, replay=None):
         out["mono"] = tlc(MC, CFG / f"FourierPoly.{ck.tier}.cfg", workers=6, timeout=1500)
         if not q:          # K = 1 tables as well: products of |k| = 1 terms leave the table there (DevTrunc)
             out["mono1"] = tlc(MC, CFG / "FourierPoly.quick.cfg", workers=6, timeout=1500)
-        out["zeroaction"] = tlc(MC, CFG / "FourierPoly.zeroaction.cfg", workers=2, timeout=600)
         return out
+
+    def gen4():
+        return {"zeroaction": tlc(MC, CFG / "FourierPoly.zeroaction.cfg", workers=2, timeout=600)}
 
     def gen3():
         out = {}
@@ -705,7 +707,7 @@ def main(tier=None, replay=None):
         out["nfwalk"] = tlc(MC, CFG / "FourierPoly.nfwalk.cfg", simulate="num=%d" % (100 if q else 2000), seed=ck.seed + 2, depth=100,
                             workers=4, timeout=1500)
         return out
-    ths = [_bg(g) for g in (gen, gen2, gen3)]
+    ths = [_bg(g) for g in (gen, gen2, gen3, gen4)]
     lib()
     runs = {}
     bad = Bag()
@@ -729,6 +731,7 @@ def main(tier=None, replay=None):
     # B, C
     join(1)
     join(2)
+    join(3)
     ck.model("FourierPoly.mono." + ck.tier, runs["mono"])
     ck.model("FourierPoly.nfmono." + ck.tier, runs["nfmono"])
     if "mono1" in runs:
